@@ -37,7 +37,7 @@ void enum_cleanup()
       {
          LOG_FMT(LTOK, "%s(%d): orig line is %zu, type is %s\n",
                  __func__, __LINE__, pc->GetOrigLine(), get_token_name(pc->GetType()));
-         Chunk *prev = pc->GetPrevNcNnl();                           // Issue #3604
+         Chunk *prev = pc->GetPrevNcNnlNi();                         // Issue #3604
 
          if (prev->IsNotNullChunk())
          {
